@@ -20,7 +20,7 @@ from .monitors import HUB, graph_state
 from .refmodel import rules as rrule
 from .refmodel.names import is_ancestor, related
 
-SCAN_CONFIGS = ["default", "include", "include-excl", "level", "below-root", "include-below-root"]
+SCAN_CONFIGS = ["default", "include", "include-excl", "level", "below-root", "include-below-root", "file-excl", "module-object", "level-include", "level-below-root", "regex-excl-include"]
 
 
 def _scan(rnd, root, spec, acc):
@@ -38,7 +38,35 @@ def _scan(rnd, root, spec, acc):
         kw["level_limit"] = rnd.choice([1, 2, 3])
     if kind in ("below-root", "include-below-root") and dirs:
         mp = os.path.join(root, rnd.choice(dirs))
-    ev = get_evaluable_architecture(root, mp, **kw)
+    if kind in ("level-include", "regex-excl-include"):
+        kw["exclude_external_libraries"] = False
+    if kind in ("level-include", "level-below-root"):
+        kw["level_limit"] = rnd.choice([1, 2, 3])
+    if kind == "level-below-root" and dirs:
+        mp = os.path.join(root, rnd.choice(dirs))
+    files = sorted(f for f in spec["files"] if f.endswith(".py") and not f.endswith("__init__.py"))
+    if kind == "file-excl" and files:
+        kw["exclusions"] = tuple("*" + os.path.basename(f) for f in rnd.sample(files, min(len(files), rnd.randint(1, 2))))
+    if kind == "regex-excl-include" and files:
+        import re as _re
+
+        kw["exclusions"] = ()
+        kw["regex_exclusions"] = tuple(".*/" + _re.escape(os.path.basename(f)) + "$" for f in rnd.sample(files, 1))
+    if kind == "module-object":
+        import types as _types
+
+        from pytestarch import get_evaluable_architecture_for_module_objects
+
+        def fake(d):
+            m = _types.ModuleType(os.path.basename(d))
+            m.__file__ = os.path.join(d, "__init__.py")
+            return m
+
+        if dirs and rnd.random() < 0.5:
+            mp = os.path.join(root, rnd.choice(dirs))
+        ev = get_evaluable_architecture_for_module_objects(fake(root), fake(mp), **kw)
+    else:
+        ev = get_evaluable_architecture(root, mp, **kw)
     acc.hist("e2e_scan_config", kind)
     return ev, kind
 
@@ -60,6 +88,15 @@ def _module_rule(rnd, ev, nodes, acc):
         if not objs:
             return
         cfg = {"verb": verb, "dir": d, "exc": exc, "subs": [(skind, s) for s in subs], "objs": [(okind, o) for o in objs], "anything": False}
+        if rnd.random() < 0.2:
+            # one side given by a regular expression that spells exactly those modules (and everything below them)
+            import re as _re
+
+            side = rnd.choice(["subs", "objs"])
+            names_ = [n for _k, n in cfg[side]]
+            if all(_re.fullmatch(r"[\w.]+", n) for n in names_):
+                cfg[side] = [("regex", "(" + "|".join(_re.escape(n) for n in names_) + r")(\..*)?$")]
+                acc.count("e2e_regex_rules")
     HUB.case = dict(HUB.case or {}, op={"rule": cfg})
     run(mk_rule(cfg, rnd.random() < 0.5), ev)
     acc.evaluated()
